@@ -1,4 +1,4 @@
 INIT Init
 NEXT Next
-CONSTANT Vals <- ValsFull
+CONSTANT Vals <- ValsQuick
 INVARIANT Injective
